@@ -273,6 +273,9 @@ func c13Check(c C13Case) *pbt.Violation {
 			if c.UsedDst {
 				vals = append(priorVals[s], vals...)
 			}
+			if (s+len(c.Ops))%2 == 0 {
+				vals = append([]int{0}, vals...) // the first edit after the load writes air
+			}
 			for j := 0; j < 6 && j < len(vals); j++ {
 				i, v := (s*131+j*977)%4096, vals[(j*5)%len(vals)]
 				if !airStates[m.blocks[s][i]] {
@@ -342,6 +345,9 @@ func c13Check(c C13Case) *pbt.Violation {
 				return pbt.V("c13.save.blockcount", "a section's block count equals the number of non-air blocks it holds", "section %d after ChunkFromSave: BlockCount=%d, it holds %d non-air blocks", s, got, want)
 			}
 			pool := c.Pools[s]
+			if (s+len(c.Ops))%2 == 0 {
+				pool = append([]int{0}, pool...) // the first edit after the load writes air
+			}
 			for j := 0; j < 4 && j < len(pool); j++ {
 				i := (s*131 + j*977) % 4096
 				if !airStates[m.blocks[s][i]] {
